@@ -154,6 +154,32 @@ def gen_siblings(rng: random.Random, delay_ms: int = 25) -> Dict[str, Any]:
     return {"groups": groups, "request": req, "delay_ms": delay_ms}
 
 
+def gen_partial_request(rng: random.Random) -> Dict[str, Any]:
+    """A requested feature is produced by a step that is NOT the last user of its data: the request names a root column
+    (or the right value column of a link) AND a feature computed elsewhere (another framework / after a join) from columns
+    that are NOT requested.  In MULTIPROCESSING the root's table travels to the other worker through the Flight store under
+    the same key that also transports the requested result columns.  PyArrow sources (outside the recorded
+    C06-mp-transform-from-non-arrow-source domain)."""
+    n = 3
+    if rng.random() < 0.6:
+        cols = {c: [rng.randrange(0, 20) for _ in range(n)] for c in ["a", "b", "c"][: rng.randrange(2, 4)]}
+        names = list(cols)
+        asked = rng.choice(names)
+        others = [c for c in names if c != asked]
+        ins = rng.sample(others, rng.randrange(1, len(others) + 1)) + ([asked] if rng.random() < 0.3 else [])
+        groups: List[Dict[str, Any]] = [
+            {"name": "R0", "kind": "root", "cfw": "PyArrowTable", "cols": cols},
+            {"name": "D1", "kind": "derived", "cfw": rng.choice(["PandasDataFrame", "PythonDictFramework"]),
+             "features": {"f1": {"inputs": ins, "c0": 1, "coefs": [rng.choice([1, 2]) for _ in ins]}}}]
+        return {"groups": groups, "request": rng.sample([asked, "f1"], 2)}
+    groups = [
+        {"name": "R0", "kind": "root", "cfw": "PyArrowTable", "cols": {"a": [rng.randrange(0, 9) for _ in range(n)], "k": [1, 2, 3]}},
+        {"name": "R1", "kind": "root", "cfw": "PyArrowTable", "cols": {"b": [rng.randrange(0, 9) for _ in range(n)], "k": [1, 2, 3]}},
+        {"name": "D1", "kind": "derived", "cfw": "PyArrowTable", "features": {"f1": {"inputs": ["a", "b"], "c0": 0, "coefs": [1, 2]}}}]
+    return {"groups": groups, "request": rng.sample(["f1", rng.choice(["a", "b"])], 2),
+            "links": [{"jt": "INNER", "l": "R0", "r": "R1", "li": ["k"], "ri": ["k"]}]}
+
+
 def gen_option_groups(rng: random.Random) -> Dict[str, Any]:
     """A root whose data depends on a group option (two option values), consumer groups on the same or another framework,
     each requested for ONE option value: the producer is computed once per option group."""
